@@ -577,6 +577,12 @@ func checkMarkers(r *ev.Run, env map[string]string, cases []markerCase, origin s
 					observations = append(observations, resolveMarkerLate(c.Marker, c.Extras))
 					paths = append(paths, "late-extras")
 					r.Count("marker_late_extras_resolutions", 1)
+					if len(c.Extras) >= 2 {
+						// And split: one extra with the pin, the others later.
+						observations = append(observations, resolveMarkerLateSplit(c.Marker, c.Extras[:1], c.Extras[1:]))
+						paths = append(paths, "late-extras-split")
+						r.Count("marker_late_extras_split_resolutions", 1)
+					}
 				}
 				r.Eval(int64(len(observations)))
 				r.Count("marker_in_domain", 1)
@@ -828,9 +834,9 @@ func pickExtras(rng *rand.Rand) []string {
 	switch k := rng.Intn(10); {
 	case k < 4:
 		return nil
-	case k < 8:
+	case k < 7:
 		return []string{extraNames[rng.Intn(len(extraNames))]}
-	case k < 9:
+	case k < 8:
 		return []string{"other"}
 	default:
 		p := rng.Perm(len(extraNames))
